@@ -24,9 +24,9 @@ ValsOf(shape, ty) ==
     [] shape = "arr" -> {Arr(a) : a \in Arrs}
     [] shape = "obj" -> {Obj(o) : o \in Objs}
 Rows == {[c |-> c, ty |-> ty] : c \in {x \in AllCfgs : Admitted(x)}, ty \in {"str", "int", "num", "dt", "date"}} \ {r \in [c : AllCfgs, ty : {"int", "num", "dt", "date"}] : r.c.shape # "prim"}
-Bodies == {Obj(<<IntV(1), s, on, l>>) : s \in {Absent, Str(<<120>>), Str(<<>>)}, on \in {Absent, Null, Str(<<121>>)}, l \in {Absent, Arr(<<>>), Arr(<<IntV(1), IntV(2)>>)}}
+Bodies == {Obj(<<IntV(1), s, on, l, dn>>) : s \in {Absent, Str(<<120>>), Str(<<>>)}, on \in {Absent, Null, Str(<<121>>)}, l \in {Absent, Arr(<<>>), Arr(<<IntV(1), IntV(2)>>)}, dn \in {Null, Str(<<122>>)}}
 FormStrs == {Str(<<120>>), Str(<<A, 32, 98>>), Str(<<A, AMP, 98, EQ, 99>>), Str(<<195, 169>>), Str(<<43>>), Str(<<PCT, 52, 49>>), Str(<<A, 10, 98>>), Str(<<>>), Str(<<59>>)}
-Forms == {Obj(<<a, n, l, d>>) : a \in FormStrs, n \in {Absent, IntV(7)}, l \in {Absent, Arr(<<Str(<<112>>), Str(<<113, COMMA, 114>>)>>)}, d \in {Absent, Str(<<122>>)}}
+Forms == {Obj(<<a, n, l, d, dn>>) : a \in FormStrs, n \in {Absent, IntV(7)}, l \in {Absent, Arr(<<Str(<<112>>), Str(<<113, COMMA, 114>>)>>)}, d \in {Absent, Str(<<122>>)}, dn \in {Absent, Str(<<113>>)}}
 RespCodes == {0, 100, 200, 201, 204, 302, 400, 404, 499, 500, 599}
 Resps == {[v |-> v, k |-> 0, hdr |-> h] : v \in {"ok200"}, h \in {Absent, Str(<<104>>), Str(<<A, 32, 98, COMMA, 99>>)}} \cup {[v |-> "created201", k |-> 0, hdr |-> Absent]}
          \cup {[v |-> v, k |-> k, hdr |-> h] : v \in {"pat4XX", "default"}, k \in RespCodes, h \in {Absent, Str(<<104, 52>>)}}
